@@ -8,7 +8,9 @@ import (
 	"os"
 	"path/filepath"
 	"sort"
+	"strings"
 
+	"github.com/meshplus/bitxhub/internal/ledger"
 	"github.com/meshplus/bitxhub/verif/sim"
 )
 
@@ -400,6 +402,34 @@ func verifyImage(res *sim.Result, prop, cls string, x *node, cfg C11Config, step
 		res.Violate(prop, "inconsistent", step, cls+",what=chain-index:"+v.Oracle, "crash while persisting block %d with {%s}: %s", N, cls, v.Detail)
 		return
 	}
+	// right after the ledger opened the node builds its read-only view ledger on the same state store
+	// (internal/app), and it may well be stopped and started once more before it executes anything
+	var againErr error
+	what := "view-ledger"
+	func() {
+		defer func() {
+			if e := recover(); e != nil {
+				againErr = fmt.Errorf("panic: %v", e)
+			}
+		}()
+		if _, againErr = ledger.NewSimpleLedger(theRepo, x.stateKV, nil, quietLogger); againErr != nil {
+			return
+		}
+		what = "second-restart"
+		if againErr = x.reopen(); againErr == nil {
+			if h2 := x.lg.GetChainMeta().Height; h2 != head {
+				againErr = fmt.Errorf("opened at height %d, the first restart had recovered height %d", h2, head)
+			} else if got := dumpVia(x.sl); got != want {
+				againErr = fmt.Errorf("state differs from the one the first restart had recovered")
+			}
+			x.sl.Clear()
+		}
+	}()
+	if againErr != nil {
+		res.Violate(prop, "reopen-fails", step, cls+",what="+what, "crash while persisting block %d with {%s}: the ledger opened at height %d, but then the %s fails: %v", N, cls, head, strings.ReplaceAll(what, "-", " "), againErr)
+		return
+	}
+	res.Count("images_second_restart_ok")
 	// executing the remaining blocks yields the same chain
 	var contErr error
 	func() {
